@@ -210,6 +210,26 @@ func newEnv(thorough bool) *env {
 	I("-2^64", "-"+pow2(64, 0))
 	I("int(1e300)", new(big.Int).Set(func() *big.Int { n, _ := new(big.Float).SetFloat64(1e300).Int(nil); return n }()).String())
 	I("10^300", "1"+strings.Repeat("0", 300))
+	// ints that are the result of an operation on operands of another magnitude (a value is
+	// what it denotes, however it was computed): each equals a pool value written directly
+	comp := func(name string, op syntax.Token, x, y string) {
+		v, err := starlark.Binary(op, bigInt(x), bigInt(y))
+		if err != nil {
+			fw.Fatal("c11: computed pool value %s: %v", name, err)
+		}
+		add(name, v, "num")
+	}
+	comp("2^40|-5 (= -5)", syntax.PIPE, pow2(40, 0), "-5")
+	I("-5", "-5")
+	comp("2^40&1 (= 0)", syntax.AMP, pow2(40, 0), "1")
+	comp("(2^40+1)^2^40 (= 1)", syntax.CIRCUMFLEX, pow2(40, 1), pow2(40, 0))
+	comp("2^70>>69 (= 2)", syntax.GTGT, pow2(70, 0), "69")
+	comp("2^64-(2^64-1) (= 1)", syntax.MINUS, pow2(64, 0), pow2(64, -1))
+	comp("2^64//2^63 (= 2)", syntax.SLASHSLASH, pow2(64, 0), pow2(63, 0))
+	comp("(2^64+1)%2^64 (= 1)", syntax.PERCENT, pow2(64, 1), pow2(64, 0))
+	comp("2^32*2^31 (= 2^63)", syntax.STAR, pow2(32, 0), pow2(31, 0))
+	comp("1<<31 (= 2^31)", syntax.LTLT, "1", "31")
+	comp("-2^40|-1 (= -1)", syntax.PIPE, "-"+pow2(40, 0), "-1")
 	F("0.0", 0)
 	F("-0.0", math.Copysign(0, -1))
 	F("1.0", 1)
